@@ -171,7 +171,7 @@ def identify(string) -> str:
         if string.startswith("<?"):
             return "processing_instruction"
         if string.startswith("</"):
-            return "end_tag"
+            return "end_tag" if len(string) > 2 else "error"
         if string.endswith("/>"):
             return "empty_tag"
         if string.endswith(">"):
